@@ -2,6 +2,7 @@ package main
 
 import (
 	"fmt"
+	"go/types"
 	"os"
 	"strings"
 
@@ -43,8 +44,13 @@ func dumpSSA(args []string) int {
 			case *ssa.Function:
 				dump(x)
 			case *ssa.Type:
-				ms := eng.Prog.MethodSets.MethodSet(x.Type())
-				_ = ms
+				if named, ok := x.Type().(*types.Named); ok {
+					for i := 0; i < named.NumMethods(); i++ {
+						if f := eng.Prog.FuncValue(named.Method(i)); f != nil {
+							dump(f)
+						}
+					}
+				}
 			}
 		}
 		// methods
